@@ -40,7 +40,7 @@ impl Mutator for MemoIndexMutator {
         source: &mut GenerationSource,
         rate: f64,
     ) -> Option<usize> {
-        if source.gen_f64() > rate {
+        if source.gen_unit_f64() >= rate {
             return None;
         }
 
